@@ -162,6 +162,12 @@ package side_chain_manager
 //@   ensures[c33-pending] !fired ==> Store[scKey("updateSideChainRequest", cid)] == old(Store)[scKey("updateSideChainRequest", cid)]
 //@   -- an update is applied only if a request was pending
 //@   ensures[c35-requested] fired ==> old(Store)[scKey("updateSideChainRequest", cid)] != None
+//@   -- ... and only if that request carries the owner the chain is registered to now (a request left over from a
+//@   -- former registration of the id must not be applied to the present owner's chain)
+//@   ghost var ownerOK bool = false
+//@   set before "ok, err := node_manager.CheckConsensusSigns(native, APPROVE_UPDATE_SIDE_CHAIN, utils.GetUint64Bytes(params.Chainid), params.Address)" : ownerOK := registered != nil && registered.Address == sideChain.Address
+//@   callsite[c35-registered-record-of-this-id] GetSideChain#1 requires arg1 == params.Chainid
+//@   ensures[c35-update-by-registered-owner] fired ==> ownerOK && old(Store)[scKey("sideChain", cid)] != None
 
 //@ func ApproveQuitSideChain
 //@   property C33, C35, C18, C32
